@@ -273,15 +273,82 @@ def floor_rule(model, res):
                   "truncate towards zero, the ceiling for negative ticks)", rule="R-SIGN")
 
 
+def log_base_rule(model, res):
+    """R-CONST with a numeric oracle: the base of the logarithm in sqrt-price -> tick is sqrt(1.0001).  The defining
+    expression of the module constant is folded with 50-digit decimals (literals, Decimal(...), math.sqrt, .sqrt(), ** 0.5)
+    and must agree with sqrt(1.0001) to 1e-15 relative (double precision); a truncated literal shifts every tick by
+    tick * error / ln(sqrt(1.0001))."""
+    from decimal import Decimal as D, getcontext, localcontext
+    f = model.func("uniswap.helper._sqrt_price_to_tick")
+    names = [n.id for n in ast.walk(f.node) if isinstance(n, ast.Name)]
+    mod = f.module
+    cands = [st for st in mod.tree.body if isinstance(st, ast.Assign) and isinstance(st.targets[0], ast.Name) and st.targets[0].id in names]
+    if not cands:
+        return 0
+
+    def fold(e):
+        if isinstance(e, ast.Constant) and isinstance(e.value, (int, float, str)):
+            return D(str(e.value))
+        if isinstance(e, ast.Call):
+            fn = ast.unparse(e.func)
+            if fn in ("Decimal", "float", "decimal.Decimal") and len(e.args) == 1:
+                return fold(e.args[0])
+            if fn in ("math.sqrt", "sqrt", "Decimal.sqrt", "np.sqrt", "numpy.sqrt") and len(e.args) == 1:
+                return fold(e.args[0]).sqrt()
+            if isinstance(e.func, ast.Attribute) and e.func.attr == "sqrt" and not e.args:
+                return fold(e.func.value).sqrt()
+        if isinstance(e, ast.BinOp) and isinstance(e.op, ast.Pow):
+            b, x = fold(e.left), fold(e.right)
+            if x == D("0.5"):
+                return b.sqrt()
+            if x == int(x):
+                return b ** int(x)
+        if isinstance(e, ast.BinOp) and isinstance(e.op, (ast.Mult, ast.Div, ast.Add, ast.Sub)):
+            a, b = fold(e.left), fold(e.right)
+            return {ast.Mult: a * b, ast.Div: a / b, ast.Add: a + b, ast.Sub: a - b}[type(e.op)]
+        raise ValueError(ast.unparse(e))
+
+    n = 0
+    with localcontext() as ctx:
+        ctx.prec = 50
+        want = D("1.0001").sqrt()
+        for st in cands:
+            try:
+                got = fold(st.value)
+            except (ValueError, ArithmeticError):
+                raise AnalysisError(f"C06: cannot fold the constant `{ast.unparse(st)[:80]}` used by _sqrt_price_to_tick")
+            n += 1
+            ok = abs(got - want) / want <= D("1e-15")
+            res.ob("R-CONST", f"{st.targets[0].id} = sqrt(1.0001) to double precision (relative error {abs(got - want) / want:.2E})",
+                   f"{mod.relpath}:{st.lineno}", ok=ok)
+            if not ok:
+                res.find("R-CONST", "uniswap.helper." + st.targets[0].id, f"log base {ast.unparse(st.value)[:50]} is not sqrt(1.0001)",
+                         f"{mod.relpath}:{st.lineno}",
+                         f"`{ast.unparse(st)[:90]}`: the base of the tick logarithm differs from sqrt(1.0001) by a relative "
+                         f"{abs(got - want) / want:.2E}; the computed tick is off by about tick * {abs(got - want) / want / D('0.00005'):.1E}, "
+                         f"so prices between ticks map to the wrong tick for large |tick|")
+    return n
+
+
 def run(model, tier="quick"):
     res = Result("C06", EXPLANATION)
     res.rules = ["R-SHAPE", "R-CONST", "R-SIGN", "R-FORMULA"]
     res.floor("magic_constants", tickmath_shape(model, res), 20)
     floor_rule(model, res)
+    res.floor("log_base_constants", log_base_rule(model, res), 1)
     opq = ["get_sqrt_ratio_at_tick", "_sqrt_price_to_tick", "_to_x96", "_from_x96"]
     for q, src, what in REFS:
         o = [x for x in opq if not q.endswith("." + x)]
         formula_check(res, model, q, src, what, opaque=o)
+    from . import uni_refs as U
+    from .C07 import UNI_ALIASES
+    from .C09 import OPQ as UOPQ
+    formula_check(res, model, "UniLpMarket.tick_to_price", U.REF_TICK_TO_PRICE,
+                  "market helper tick -> quote price uses token0/token1 decimals and the pool's orientation", opaque=UOPQ, aliases=UNI_ALIASES)
+    formula_check(res, model, "UniLpMarket.price_to_tick", U.REF_PRICE_TO_TICK,
+                  "market helper quote price -> usable tick uses token0/token1 decimals and the pool's orientation", opaque=UOPQ, aliases=UNI_ALIASES)
+    from .base_refs import numeric_coercion
+    numeric_coercion(res, model)     # float prices reach the helpers through float_param_formatter -> object_to_decimal
     from ..rules.fresh import fresh_rule
     if "R-FRESH" not in res.rules:
         res.rules.append("R-FRESH")
